@@ -21,6 +21,7 @@ RULE = ("3 coolers (5-6 bins in 2-3 chromosomes, <=6 pixels, one extra bin colum
         "containing the referenced bins; replace on/off; pixels(join=True) and matrix(as_pixels=True, join=True). Oracle: rows "
         "lo..hi-1 of the raw HDF5 columns with index labels lo..hi-1; each annotated pixel carries chrom/start/end/extra of its own two "
         "bins, order and index of the pixel frame unchanged. Non-trivial: a proper sub-range / >=2 pixels. Distinct by construction.")
+EXTRA_LEGS = 'a square-storage cooler with pixels on both sides of the diagonal (column bins of a selection below all of its row bins).'
 BOUNDS = {"quick": "all slices and column subsets on 3 coolers x 2 encodings; annotate: all contiguous bin slices for selections of size <=2, "
                    "{full, selector, tightest slice} for sizes 3-4",
           "thorough": "as quick plus all contiguous bin slices for size 3 and sequences of length n+2"}
